@@ -96,7 +96,41 @@ def m_generic_variant_name(spec, rnd):
     return "response-schema-suffix"
 
 
-MUTATORS = [m_allof_cycle, m_self_ref, m_dangling, m_delete_schema, m_empty_names, m_huge_name, m_keyword_names, m_methods,
+def m_duplicate_operations(spec, rnd):
+    """k copies of one operation under new paths and ids: identical response sets, request shapes and inline types
+    (exercises every de-duplication pass with more than one duplicate)"""
+    import copy
+    paths = spec.setdefault("paths", {})
+    cands = [(p, m, op) for p, it in paths.items() if isinstance(it, dict) for m, op in it.items()
+             if m in ("get", "post", "put", "delete", "patch") and isinstance(op, dict) and "{" not in p]
+    k = rnd.choice([2, 3, 4])
+    if not cands:
+        base = {"responses": {"200": {"description": "ok", "content": {"application/json": {"schema": {"type": "object", "properties": {"v": {"type": "string", "enum": ["a", "b"]}}}}}},
+                              "404": {"description": "nf", "content": {"application/json": {"schema": {"type": "object", "properties": {"msg": {"type": "string"}}}}}}}}
+        cands = [("/dup", "get", base)]
+        paths["/dup"] = {"get": dict(base, operationId="dup_base")}
+    p, m, op = rnd.choice(cands)
+    for i in range(k):
+        c = copy.deepcopy(op)
+        c["operationId"] = f"{op.get('operationId', 'op')}_copy{i}"
+        paths[f"{p}/copy{i}"] = {m: c}
+    return f"duplicate-operations:{k}"
+
+
+def m_duplicate_schemas(spec, rnd):
+    import copy
+    s = schemas(spec)
+    names = [n for n in s if isinstance(s[n], dict)]
+    if not names:
+        return "duplicate-schemas:0"
+    k = rnd.choice([2, 3])
+    n = rnd.choice(names)
+    for i in range(k):
+        s[f"{n}Copy{i}"] = copy.deepcopy(s[n])
+    return f"duplicate-schemas:{k}"
+
+
+MUTATORS = [m_duplicate_operations, m_duplicate_schemas, m_allof_cycle, m_self_ref, m_dangling, m_delete_schema, m_empty_names, m_huge_name, m_keyword_names, m_methods,
             m_deep_nesting, m_contradictory, m_type_confusion, m_generic_variant_name]
 
 
